@@ -87,11 +87,9 @@ class BuiltinMixin(CallMixin):
             raise EngineError(f"seq_of({v!r})")
         if name == "raise_any":
             # one path per representative class below the given base (handlers only discriminate by named classes)
-            from .interp import EXC_REPRESENTATIVES
             base = args[0]
             excl = args[1:] if len(args) > 1 else ()
-            cands = [PyClass(k) for k in EXC_REPRESENTATIVES
-                     if self.is_subclass(PyClass(k), base) and not any(self.is_subclass(PyClass(k), x) for x in excl)]
+            cands = self.representatives(base, tuple(excl))
             if not cands:
                 return []
             st.trace.append(f"raised:any-{base.cls.__name__ if isinstance(base, PyClass) else base.ci.name}:in:{ctx.func.qualname}")
@@ -410,6 +408,23 @@ class BuiltinMixin(CallMixin):
         if kind == "exc":
             if meth in ("with_traceback", "add_note"):
                 return [(st, self_v)]
+            if meth == "split":
+                # BaseExceptionGroup.split(cond) -> (match, rest) (trusted model): nothing matches (rest is the group itself),
+                # everything matches, or both parts are new groups; a part derived from an ExceptionGroup is an
+                # ExceptionGroup, a part derived from a BaseExceptionGroup may be either (the constructor downgrades it
+                # when every remaining leaf is an Exception)
+                if not all(self.is_subclass(c, PyClass(BaseExceptionGroup)) for c in self.exc_classes(st, self_v)):
+                    raise EngineError(f"{ctx.func.key()}:{line}: split() on an exception that is not known to be a group")
+                outs = []
+                for s1, is_exc in self.split_exc(st, self_v, PyClass(Exception)):
+                    def part(sx):
+                        return self.make_exc(sx, PyClass(ExceptionGroup), ()) if is_exc else \
+                            self.make_exc_any(sx, [PyClass(ExceptionGroup), PyClass(BaseExceptionGroup)])
+                    s2, s3 = s1.clone(), s1.clone()
+                    outs.append((s1, (None, self_v)))
+                    outs.append((s2, (part(s2), None)))
+                    outs.append((s3, (part(s3), part(s3))))
+                return outs
         if kind == "str":
             return [(st, OpaqueStr())]
         if kind == "super":
